@@ -5,6 +5,7 @@ NsQ == {6, 9}
 NsT == {5, 6, 9, 20}
 \* C15: also a very tall matrix (n >= 10 p for every spectrum here but the six-feature one)
 NsTall == {6, 9, 40}
+NsTT == NsT \cup {40}
 \* squared singular values: distinct, repeated, zero, single feature, six features
 SpectraQ == { <<16, 9, 4, 1>>, <<9, 9, 4>>, <<16, 0, 4, 1>>, <<25>>, <<4, 16, 1, 9>>, <<36, 25, 16, 9, 4, 1>> }
 SpectraT == SpectraQ \cup { <<1, 4, 9, 16>>, <<4, 4, 4>>, <<0, 9, 0, 1>>, <<16, 9>>, <<1, 1, 16, 16, 4>>, <<25, 1, 1, 1>>,
